@@ -1098,8 +1098,9 @@ def pattern_ldr32_reg(context, tree, c0):
 @isa.pattern("reg", "NEGI32(reg)", size=2)
 @isa.pattern("reg", "NEGU32(reg)", size=2)
 def pattern_negi32(context, tree, c0):
-    context.emit(Subr(c0, R0, c0))
-    return c0
+    d = context.new_reg(RiscvRegister)
+    context.emit(Subr(d, R0, c0))
+    return d
 
 
 @isa.pattern("reg", "INVI8(reg)", size=2)
@@ -1107,8 +1108,9 @@ def pattern_negi32(context, tree, c0):
 @isa.pattern("reg", "INVU32(reg)", size=2)
 @isa.pattern("reg", "INVI32(reg)", size=2)
 def pattern_inv(context, tree, c0):
-    context.emit(Xori(c0, c0, -1))
-    return c0
+    d = context.new_reg(RiscvRegister)
+    context.emit(Xori(d, c0, -1))
+    return d
 
 
 @isa.pattern("reg", "LDRU16(reg)", size=2)
